@@ -340,6 +340,8 @@ def cli_docs():
                         ("meta-type-number", [("TYPE", I(5)), ("VERSION", S("1.0", "quoted"))])):
         out.append((label, Doc([A("K", S("A→B", "bare")), B("B1", [A("L", Lst(S("a"), S("b c", "quoted")))])], name="M", meta=meta, separator=True)))
     # verbatim containers whose bytes a trim would change
+    zesc = dm.Zone("\x1b[31mred\x1b[0m \x07", "ansi", "```")
+    out.append(("terminal-escape-sequences", Doc([A("K", zesc), A("S", S("a\x1b[1mb", "quoted"))], name="M", separator=True, meta=[("TYPE", S("X")), ("VERSION", S("1.0", "quoted"))])))
     zws = dm.Zone("hard break  \n\t\n   \nlast\t", "md", "```")
     out.append(("zone-and-frontmatter-trailing-ws", Doc([A("K", zws), B("B1", [A("Z", zws)])], name="M", separator=True, frontmatter="name: x  \ndescription: y\t",
                                                         meta=[("TYPE", S("X")), ("VERSION", S("1.0", "quoted"))])))
